@@ -39,23 +39,26 @@ def tid():
 
 
 class LoggedLock:
-    """the per-call mutex of runner_local, logging acquire (after it succeeded) and release (before it happens)"""
+    """proxy of a per-call mutex of runner_local (whatever object `_mutex_for_invocation` hands out for the call), logging
+    acquire (after it succeeded) and release (before it happens); one proxy per (call, underlying lock object)"""
 
-    def __init__(self, key):
+    def __init__(self, key, lock):
         self.key = key
-        self.lock = threading.RLock()
+        self.lock = lock
         self.depth = collections.Counter()
 
     def acquire(self, blocking=True, timeout=-1):
         ok = self.lock.acquire(blocking, timeout)
         if ok:
             self.depth[tid()] += 1
+            HOLD[(self.key, tid())] += 1
             if self.depth[tid()] == 1:
                 LOG.append(("acq", tid(), self.key))
         return ok
 
     def release(self):
         self.depth[tid()] -= 1
+        HOLD[(self.key, tid())] -= 1
         if self.depth[tid()] == 0:
             LOG.append(("rel", tid(), self.key))
         self.lock.release()
@@ -69,16 +72,33 @@ class LoggedLock:
         return False
 
 
-class MutexTable(collections.defaultdict):
-    def __missing__(self, key):
-        v = self[key] = LoggedLock(key)
-        return v
+HOLD = collections.Counter()      # (call key, thread) -> nesting depth of the call's mutex held by the thread
+_proxies = {}                     # id(underlying lock) -> (underlying lock, proxy): the lock is kept alive so ids stay unique
+
+
+def install_mutex_logging(rl):
+    """wrap `_mutex_for_invocation` (the one place the runner obtains the per-call mutex) so that the lock it hands out
+    is logged; independent of how the table of mutexes is kept. Returns an undo function."""
+    orig = rl._mutex_for_invocation
+
+    def logged(fn_reference_with_args):
+        lk = orig(fn_reference_with_args)
+        key = (fn_reference_with_args.fn_reference.qualified_name, fn_reference_with_args.arg_hash)
+        ent = _proxies.get(id(lk))
+        if ent is None or ent[0] is not lk:
+            ent = _proxies[id(lk)] = (lk, LoggedLock(key, lk))
+        return ent[1]
+    rl._mutex_for_invocation = logged
+
+    def undo():
+        rl._mutex_for_invocation = orig
+        _proxies.clear()
+        HOLD.clear()
+    return undo
 
 
 def holding(key):
-    import twosigma.memento.runner_local as rl
-    lk = rl._memento_fn_mutex.get(key)
-    return lk is not None and lk.depth[tid()] > 0
+    return HOLD[(key, tid())] > 0
 
 
 def instrument(storage):
@@ -144,20 +164,24 @@ def run_scenario(sc, schedule, root):
     from twosigma.memento import Environment, ConfigurationRepository, FunctionCluster
     from twosigma.memento.storage_filesystem import FilesystemStorageBackend
     cluster = "c09"
-    st = FilesystemStorageBackend(path=os.path.join(root, "s"), memory_cache_mb=(None if sc["cache"] == "none" else 4))
+    if sc.get("backend") == "memory":
+        from twosigma.memento.storage_memory import MemoryStorageBackend
+        st = MemoryStorageBackend()
+    else:
+        st = FilesystemStorageBackend(path=os.path.join(root, "s"), memory_cache_mb=(None if sc["cache"] == "none" else 4))
     prev = m.Environment.get()
     m.Environment.set(Environment(name="c09", base_dir=root, repos=[
         ConfigurationRepository(name="r", clusters={cluster: FunctionCluster(name=cluster, storage=st)})]))
-    old_table = rl._memento_fn_mutex
-    rl._memento_fn_mutex = MutexTable()
+    undo = install_mutex_logging(rl)
     try:
         work, other = make_functions(cluster)
         fn_of = lambda x: other if x >= 100 else work         # arguments >= 100 are calls of the second function
         for x in sc["warm"]:
             fn_of(x)(x)
-        if sc["cache"] == "cold" and st._memory_cache is not None:
+        if sc["cache"] == "cold" and getattr(st, "_memory_cache", None) is not None:
             st._memory_cache.forget_everything()
-        instrument(st)
+        if not sc.get("fine"):
+            instrument(st)
         del LOG[:]
         keyof = {}
         for x in set(sc["args"]):
@@ -172,12 +196,19 @@ def run_scenario(sc, schedule, root):
             return go
         rl_file = rl.__file__
         want = lambda c: c.co_filename == rl_file
-        S = sched.Sched(want, block_timeout=0.08)
+        want_call = None
+        if sc.get("fine"):
+            # family C: the storage calls are not atomic units; every function entry inside the storage modules is a yield point
+            import twosigma.memento.storage_memory as smem
+            import twosigma.memento.storage_base as sbase
+            files = {smem.__file__, sbase.__file__}
+            want_call = lambda c: c.co_filename in files
+        S = sched.Sched(want, block_timeout=0.08, want_call=want_call)
         results, steps, trace = S.run([thunk(i, x) for i, x in enumerate(sc["args"])], schedule)
         log = list(LOG)
         return dict(results=results, steps=steps, log=log, keyof=keyof, cache=cache_accounts(st))
     finally:
-        rl._memento_fn_mutex = old_table
+        undo()
         m.Environment.set(prev)
 
 
@@ -285,6 +316,69 @@ CACHE_OPSETS = [
 ]
 
 
+# family C: the in-memory backend, storage calls interleaved at function-call granularity (oracle only: the model's events
+# are the atomic storage calls of family A)
+FINE_SCENARIOS = [
+    dict(name="memory/cold/same-key/fine", args=[3, 3], warm=[], cache="none", backend="memory", fine=True),
+    dict(name="memory/cold/different-keys/fine", args=[3, 4], warm=[], cache="none", backend="memory", fine=True),
+    dict(name="memory/warm/same-key/fine", args=[3, 3], warm=[3], cache="none", backend="memory", fine=True),
+]
+
+
+def long_flight(root, n_other=1100):
+    """one call stays in flight while the process makes `n_other` other distinct invocations; then a second caller of the
+    call in flight arrives. Plain threads and events (no forced schedule): whatever the timing, the body must run once."""
+    import twosigma.memento as m
+    import twosigma.memento.runner_local as rl
+    from twosigma.memento import Environment, ConfigurationRepository, FunctionCluster
+    from twosigma.memento.storage_memory import MemoryStorageBackend
+    st = MemoryStorageBackend()
+    prev = m.Environment.get()
+    m.Environment.set(Environment(name="c09", base_dir=root, repos=[
+        ConfigurationRepository(name="r", clusters={"c09": FunctionCluster(name="c09", storage=st)})]))
+    started, go = threading.Event(), threading.Event()
+    orig_log = REC.log
+    execs = collections.Counter()
+
+    def log(x):
+        execs[x] += 1
+        if x == 7 and execs[x] == 1:
+            started.set()
+            go.wait(60)
+    try:
+        REC.__dict__["log"] = log
+        work, other = make_functions("c09")
+        res = {}
+
+        def call(name, fn, x):
+            try:
+                res[name] = ("ok", fn(x))
+            except BaseException as e:      # noqa
+                res[name] = ("raise", type(e).__name__, str(e)[:200])
+        ta = threading.Thread(target=call, args=("A", work, 7), daemon=True)
+        ta.start()
+        started.wait(20)
+        for i in range(n_other):
+            other(1000 + i)
+        tb = threading.Thread(target=call, args=("B", work, 7), daemon=True)
+        tb.start()
+        tb.join(0.5)
+        go.set()
+        ta.join(30)
+        tb.join(30)
+    finally:
+        REC.__dict__.pop("log", None)
+        go.set()
+        m.Environment.set(prev)
+    fails = []
+    if execs[7] != 1:
+        fails.append(dict(clause="single-flight", arg=7, executions=execs[7], expected=1, other_invocations=n_other))
+    for k in ("A", "B"):
+        if res.get(k) != ("ok", [7, 49, "v"]):
+            fails.append(dict(clause="correct-value" if res.get(k, ("",))[0] == "ok" else "no-internal-error", thread=k, got=res.get(k)))
+    return fails
+
+
 def schedules_single_preemption(nsteps, nthreads, stride=1):
     out = []
     for first in range(nthreads):
@@ -318,7 +412,9 @@ def main(chk, replay=None):
     if replay is not None:
         root = tempfile.mkdtemp(prefix="c09r_")
         try:
-            if replay.get("family") == "B":
+            if replay.get("family") == "L":
+                fails = long_flight(root)
+            elif replay.get("family") == "B":
                 fails, _ = cache_trial([tuple(o) for o in replay["ops"]], [tuple(s) for s in replay["schedule"]])
             else:
                 obs = run_scenario(replay["scenario"], [tuple(s) for s in replay["schedule"]], root)
@@ -330,7 +426,9 @@ def main(chk, replay=None):
     chk.rule = ("family A: 9 scenarios ({cold store, warm store + cold cache, warm cache, no cache} x {same key, different keys}, 2-3 "
                 "threads) x schedules forced at line granularity in runner_local.py: every single preemption point for both thread "
                 "orders (quick: stride 3) + seeded random schedules with up to 6 preemptions; family B: 6 pairs/triples of MemoryCache "
-                "operations x every single preemption point inside the cache's methods + random. Distinct = distinct (scenario, "
+                "operations x every single preemption point inside the cache's methods + random; family C: the in-memory backend with "
+                "every function entry inside the storage modules as a further yield point (oracle only); plus one call kept in flight "
+                "across 1100 other invocations. Distinct = distinct (scenario, "
                 "schedule); non-trivial = >= 1 preemption before a thread finished.")
     proof_ok = chk.build_and_audit()
     quick = chk.tier == "quick"
@@ -369,6 +467,36 @@ def main(chk, replay=None):
                 p = chk.violation({"what": "concurrent callers (%s): %s" % (sc["name"], fails[0]["clause"]), "class": {"clause": fails[0]["clause"], "family": "A"},
                                    "family": "A", "scenario": sc, "schedule": sch, "observed": fails[:3]})
                 reported += bool(p)
+    for sc in FINE_SCENARIOS:
+        root = tempfile.mkdtemp(prefix="c09_", dir=chk.tmpdir())
+        ref = run_scenario(sc, [(i, 10 ** 6) for i in range(len(sc["args"]))], root)
+        shutil.rmtree(root, ignore_errors=True)
+        nsteps = max(ref["steps"])
+        scheds = schedules_single_preemption(nsteps, len(sc["args"]), stride=(3 if quick else 1))
+        scheds += [random_schedule(rng, len(sc["args"]), nsteps, rng.randint(2, 6)) for _ in range(8 if quick else 150)]
+        for sch in scheds:
+            root = tempfile.mkdtemp(prefix="c09_", dir=chk.tmpdir())
+            try:
+                obs = run_scenario(sc, sch, root)
+                fails = judge(sc, obs, None)
+            except sched.Deadlock as e:
+                fails = [dict(clause="no-deadlock", error=str(e))]
+            finally:
+                shutil.rmtree(root, ignore_errors=True)
+            chk.case([sc["name"], sch], nontrivial=True, sample=dict(scenario=sc["name"], schedule=sch[:4]))
+            chk.count("scenario:" + sc["name"])
+            if fails and reported < 5:
+                p = chk.violation({"what": "concurrent callers (%s): %s" % (sc["name"], fails[0]["clause"]), "class": {"clause": fails[0]["clause"], "family": "C"},
+                                   "family": "A", "scenario": sc, "schedule": sch, "observed": fails[:3]})
+                reported += bool(p)
+    root = tempfile.mkdtemp(prefix="c09_", dir=chk.tmpdir())
+    lf = long_flight(root)
+    shutil.rmtree(root, ignore_errors=True)
+    chk.case(["long-flight", 1100], nontrivial=True, sample=dict(scenario="long-flight", other_invocations=1100))
+    chk.count("scenario:long-flight")
+    if lf:
+        chk.violation({"what": "a call in flight across 1100 other invocations: %s" % lf[0]["clause"], "class": {"clause": lf[0]["clause"], "family": "L"},
+                       "family": "L", "observed": lf[:3]})
     for ops in CACHE_OPSETS:
         _, steps = cache_trial(ops, [(i, 10 ** 6) for i in range(len(ops))])
         nsteps = max(steps)
